@@ -79,6 +79,8 @@ func resolveTypeText(pkg *types.Package, t string) types.Type {
 		return types.Typ[types.Bool]
 	case "float64":
 		return types.Typ[types.Float64]
+	case "byte":
+		return types.Universe.Lookup("byte").Type()
 	case "Ref":
 		return types.Typ[types.UnsafePointer]
 	case "any":
